@@ -32,7 +32,7 @@ CHECKS = {
    "DESIGN.md §4 C07"),
  "C12": ("enum", "exploration",
    "bounded-exhaustive enumeration of operation sequences on the real byte channel with counting wakers against a reference FIFO model, random longer sequences, and a real-thread deadlock tier",
-   "Every sequence of {write 1/2/cap/cap+1 bytes, read into 0/1/2/cap bytes, flush, shutdown, drop writer, drop reader} to depth 8 (9.8e8 sequences quick; depth 10 thorough) for capacities 1..4 and coop budgets {64,2,3} is executed on the real ByteWriter/ByteReader poll functions next to a model: bytes read are a prefix of bytes written, buffered <= capacity, EOF after drain, writes fail after reader drop, a Pending is legitimate only if blocked or the own waker was woken (coop yield), and a parked side whose blocking condition is lifted by the other side's op must have been woken by the end of that op. 4e6 random sequences to length 200 (capacities to 64, waker switches, budget resets) and 1.2e4 real-thread runs with a deadlock monitor on top.",
+   "Every sequence of {write 1/2/cap/cap+1 bytes, read into 0/1/2/cap bytes, flush, shutdown, drop writer, drop reader} to depth 8 (9.8e8 sequences quick; depth 9 thorough) for capacities 1..4 and coop budgets {64,2,3} is executed on the real ByteWriter/ByteReader poll functions next to a model: bytes read are a prefix of bytes written, buffered <= capacity, EOF after drain, writes fail after reader drop, a Pending is legitimate only if blocked or the own waker was woken (coop yield), and a parked side whose blocking condition is lifted by the other side's op must have been woken by the end of that op. 4e6 random sequences to length 200 (capacities to 64, waker switches, budget resets) and 1.2e4 real-thread runs with a deadlock monitor on top.",
    "Trusts: op-level interleavings are all interleavings because every channel op runs under the channel's mutex; real concurrency is only sampled by the thread tier.",
    "DESIGN.md §4 C12"),
  "C17": ("enum", "exploration",
